@@ -19,7 +19,6 @@ ENCODED = [
     "cirkit.symbolic.circuit.Circuit.is_smooth/is_decomposable/is_structured_decomposable/is_omni_compatible",
     "cirkit.symbolic.circuit.are_compatible/_scope_factorizations/_are_compatible",
     "cirkit.utils.scope.Scope (all set operations, comparisons, hashing, iteration) on symbolic bit-vector sets",
-    "cirkit.templates.region_graph.graph.RegionGraph.is_structured_decomposable",
 ]
 RULE = (
     "one case = (circuit skeleton or pair of skeletons, question): the leaves' variable ids are symbolic (z3 "
